@@ -61,6 +61,13 @@ impl StorageData for FileStorageMemoryMapped {
         self.memory.rename(new_name)
     }
 
+    fn rollback(&mut self) -> Result<(), DbError> {
+        self.file.rollback()?;
+        let buffer = self.file.read(0, self.file.len())?.to_vec();
+        self.memory = MemoryStorage::from_buffer(self.file.name(), buffer);
+        Ok(())
+    }
+
     fn resize(&mut self, new_len: u64) -> Result<(), DbError> {
         self.memory.resize(new_len)?;
         self.file.resize(new_len)
